@@ -240,9 +240,10 @@ def run(pid, tier):
                 ctx.violation("parser-sees-pragma:%s:%s" % (where, tk[0] if isinstance(tk, (list, tuple)) else tk),
                               {"document": name, "k": rec["k"], "pragma": rec["pragma"], "first_difference": td, "text": text[:600]})
             if rec.get("fix_lost_pragma"):
-                ctx.violation("fix-drops-pragma-line:%s" % where, {"document": name, "k": rec["k"], "pragma": rec["pragma"]})
+                ctx.violation("fix-drops-pragma-line:%s :: %s @%d %s" % (where, name, rec["k"], rec["kind"]), {"document": name, "k": rec["k"], "pragma": rec["pragma"]})
             if rec.get("fix_moved_pragma"):
-                ctx.violation("fix-moves-pragma-off-its-line:%s" % where, {"document": name, "k": rec["k"], "pragma": rec["pragma"], "detail": rec["fix_moved_pragma"]})
+                ctx.violation("fix-moves-pragma-off-its-line:%s :: %s @%d %s" % (where, name, rec["k"], rec["kind"]),
+                              {"document": name, "k": rec["k"], "pragma": rec["pragma"], "detail": rec["fix_moved_pragma"]})
             traces.append([{"base": rec["base"], "pragmas": rec["pragmas"], "observed": rec["observed"], "errors": rec["errors"]}])
             meta.append((name, rec, where, text))
     tr_, verdicts = tracev.validate("trace/Trace_Pragma", "Trace_Pragma.cfg", traces, "c11")
